@@ -93,7 +93,7 @@ func (w *worker) kill() {
 
 // call returns the outcome and whether the worker is still usable
 func (w *worker) call(d *Doc, ms int) (Outcome, bool) {
-	b, _ := json.Marshal(workerIn{D: d, Ms: ms})
+	b, _ := json.Marshal(workerIn{D: d, Ms: ms, Analyze: ms == -1})
 	w.in.Write(b)
 	w.in.WriteByte('\n')
 	if err := w.in.Flush(); err != nil {
@@ -178,6 +178,15 @@ func NewPool(par int) *Pool {
 
 // Run renders one document in some worker (blocking until one is free)
 func (p *Pool) Run(d *Doc) Outcome { return p.RunT(d, 0) }
+
+// Analyze computes the structural analysis of a document (in a worker: it runs /repo's cascade)
+func (p *Pool) Analyze(d *Doc) Analysis {
+	o := p.RunT(d, -1)
+	if o.Analysis != nil {
+		return *o.Analysis
+	}
+	return Analysis{}
+}
 
 // RunT: ms > 0 overrides the in-process hang timeout (used while shrinking hangs)
 func (p *Pool) RunT(d *Doc, ms int) Outcome {
